@@ -22,7 +22,7 @@ EXPLANATION = (
     "result comprehension iterates the original key list; except arms inside the fallback loops fall through; the "
     "unavailable error is raised only after the last host."
 )
-SHARED = [('C08', ['R2', 'R5'], 'requests go to the address the current metadata names')]
+SHARED = [('C08', ['R2', 'R5'], 'requests go to the address the current metadata names'), ('C11', ['R1'], 'a request to a broker that never answers ends in the failed list, not in silence')]
 ASSUMPTIONS = ["dict/defaultdict preserve insertion order; DeferredList preserves the order of its input list"]
 KC = "client:KafkaClient"
 
